@@ -15,7 +15,6 @@ for d, _, files in os.walk(src):
             sys.stderr.write("overlay would replace existing file %s\n" % target)
             sys.exit(2)
         rep[target] = os.path.join(d, f)
-extra = os.path.join(root, ".gen", "overlay.extra.json")
-if os.path.exists(extra):
-    rep.update(json.load(open(extra)).get("Replace", {}))
+if len(sys.argv) > 2 and sys.argv[2]:
+    rep.update(json.load(open(sys.argv[2])).get("Replace", {}))
 json.dump({"Replace": rep}, sys.stdout, indent=1)
